@@ -263,6 +263,13 @@ Proof.
     apply Forall_replace_nth; auto. apply Hf. eapply Forall_nth; eauto.
   - destruct (nth_error st i); exact H.
   - destruct (nth_error st i); exact H.
+  - destruct (nth_error st i) as [t|] eqn:Ei; [|exact H]. destruct (nth_error st j) as [tj|] eqn:Ej; [|exact H].
+    pose proof (remove_at_heap t k (Forall_nth _ _ _ _ H Ei)) as [Hr _].
+    destruct (remove_at update push size t k) as [t' res]. simpl in Hr.
+    assert (H1 : Forall Heap (replace_nth i t' st)) by (apply Forall_replace_nth; auto).
+    destruct res as [x|]; [|exact H1].
+    destruct (nth_error (replace_nth i t' st) j) as [u|] eqn:Eu; [|exact H1].
+    destruct (next_prio ps). simpl. apply Forall_replace_nth; auto. apply insert_at_heap. eapply Forall_nth; eauto.
 Qed.
 
 Lemma run_heap ops : forall st ps, Forall Heap st -> Forall Heap (fst (fst (run update push size modify elem agg st ps ops))).
